@@ -27,7 +27,8 @@ def nodes(fmt, obj):
             for k in sorted(cont.variants):
                 v = cont.variants[k]
                 deep = depth >= 2 and set(_top(v).arches) - set(v.parent.arches)
-                out.append((["ci.variant"] + (["ci.childvariant"] if depth else []) + (["ci.grandchild"] if deep else []), v.uid, v))
+                out.append((["ci.variant"] + (["ci.childvariant"] if depth else []) + (["ci.grandchild"] if deep else [])
+                            + ([] if v.variants else ["ci.leafvariant"]), v.uid, v))
                 if v.type == "layered-product":
                     out.append((["ci.vrelease"], v.uid, v.release))
                 walk(v, depth + 1)
@@ -151,10 +152,11 @@ OBJ = {"none": None, "int": 5, "empty": "", "float": 1.5, "strnum": "7", "str": 
        "label_unknown": "Gamma-1.0", "label_threepart": "RC-1.0.0", "label_lower": "rc-1.0", "trailingdot": "1.", "doubledot": "1..2",
        "alnum": "1a", "dash": "a-b", "space": "a b", "md5_short": "abc123", "md5_upper": "A" * 32, "md5_31": "a" * 31,
        "layered": "layered-product", "variantid": "Server", "nan": float("nan"), "bytes": b"x86_64", "md5_nl": "a" * 32 + "\n",
-       "zerofloat": 0.0, "archlist": ["x86_64"], "blanks": "  \t ", "numnl": "22\n", "list_int_float": [1, 1.0], "list_int_bool": [1, True], "list_of_text": ["x", "y"], "list_of_float": [1.5]}
+       "zerofloat": 0.0, "archlist": ["x86_64"], "blanks": "  \t ", "numnl": "22\n", "list_int_float": [1, 1.0], "list_int_bool": [1, True], "list_of_text": ["x", "y"], "list_of_float": [1.5],
+       "set_of_int": set([5]), "set_of_none": set([None]), "set_of_blank": set([""])}
 FULLWIDTH = {ord(c): 0xFF10 + int(c) for c in "0123456789"}
 DOC = dict(OBJ)
-DOC.update({"emptyset": [], "int_date": 20150522})
+DOC.update({"emptyset": [], "int_date": 20150522, "set_of_int": [5], "set_of_none": [None], "set_of_blank": [""]})
 INI = {"trailingdot": "1.", "alnum": "1a", "str": "maybe", "empty": "", "zero": "0", "dash": "a-b", "unknown": "bogus-value",
        "layered": "layered-product"}
 
@@ -178,6 +180,8 @@ def corrupt_object(fmt, obj, node_index, field, cls):
     elif field == "image_paths" and cls == "int":
         plat = sorted(node.images)[0]
         node.images[plat][sorted(node.images[plat])[0]] = 5
+    elif field == "image_paths" and cls == "table_none":
+        node.images[sorted(node.images)[0]] = None
     elif cls == "misaligned":
         node.uid = node.uid + "x"
     elif cls == "dashvariant":
@@ -301,7 +305,7 @@ def corrupt_document(fmt, text, obj, case):
         node = pay["release"]
     elif kind == "ci.base_product":
         node = pay["base_product"]
-    elif kind in ("ci.variant", "ci.childvariant", "ci.grandchild"):
+    elif kind in ("ci.variant", "ci.childvariant", "ci.grandchild", "ci.leafvariant"):
         node = pay["variants"][label]
     elif kind == "ci.vrelease":
         node = pay["variants"][label]["release"]
